@@ -710,7 +710,35 @@ func c14Files(c *common, only string, onlyCase int) {
 
 type c14Phase struct {
 	buf  int // -1: no option (default)
+	sets int // 0: default file sets; 1: WithFileSets(PredefinedFileSet()); 2: WithFileSets(even file types only); 3: WithFileFunc re-registering predefined creators; 4: WithFileFunc removing activity (nil)
 	seqs [][]proto.Message
+}
+
+// c14Sets: the file sets a listener configured with mode sets listens to, and the options that configure it.
+func c14Sets(mode int) (filedef.FileSets, []filedef.Option) {
+	sets := filedef.PredefinedFileSet()
+	switch mode {
+	case 1:
+		return sets, []filedef.Option{filedef.WithFileSets(filedef.PredefinedFileSet())}
+	case 2:
+		sub := filedef.FileSets{}
+		for k, v := range sets {
+			if k%2 == 0 {
+				sub[k] = v
+			}
+		}
+		return sub, []filedef.Option{filedef.WithFileSets(sub)}
+	case 3:
+		var opts []filedef.Option
+		for k, v := range sets {
+			opts = append(opts, filedef.WithFileFunc(k, v))
+		}
+		return sets, opts
+	case 4:
+		delete(sets, typedef.FileActivity)
+		return sets, []filedef.Option{filedef.WithFileFunc(typedef.FileActivity, nil)}
+	}
+	return sets, nil
 }
 
 type c14Res struct {
@@ -719,8 +747,7 @@ type c14Res struct {
 	msgs     []proto.Message
 }
 
-func c14SeqBuild(ms []proto.Message) filedef.File {
-	sets := filedef.PredefinedFileSet()
+func c14SeqBuild(ms []proto.Message, sets filedef.FileSets) filedef.File {
 	var f filedef.File
 	for _, m := range ms {
 		if m.Num == mesgnum.FileId {
@@ -768,6 +795,8 @@ func c14RunListener(phases []c14Phase, timeout time.Duration, gosched *rng) (res
 			if ph.buf >= 0 {
 				opts = append(opts, filedef.WithChannelBuffer(uint(ph.buf)))
 			}
+			_, sopts := c14Sets(ph.sets)
+			opts = append(opts, sopts...)
 			if pi == 0 {
 				lis = filedef.NewListener(opts...)
 			} else {
@@ -911,6 +940,14 @@ func c14Listener(c *common, onlyCase int) {
 				}
 				phases = append(phases, ph)
 			}
+			custom := false
+			if round%2 == 1 { // the listener's other options: which file types it listens to (direct oracle only; the protocol model knows the default sets)
+				for p := range phases {
+					phases[p].sets = cr.pick(0, 1, 2, 3, 4)
+					custom = custom || phases[p].sets != 0
+				}
+				stat("listener_cases_with_file_set_options", 1)
+			}
 			res, pan := c14RunListener(phases, timeout, cr.fork())
 			stat("listener_cases", 1)
 			args := []string{"c14", "--mode", "listener", "--seed", fmt.Sprint(c.seed), "--tier", c.tier, "--case", fmt.Sprint(idx - 1)}
@@ -918,7 +955,9 @@ func c14Listener(c *common, onlyCase int) {
 				emitJSON("FAIL", "", map[string]any{"what": "listener panicked", "panic": pan, "phases": c14PhaseSummary(phases), "harness_args": args})
 				continue
 			}
-			emit("CASE", fmt.Sprintf("L\t%s\t%s", c14CoqPhases(phases), c14CoqRes(res)))
+			if !custom {
+				emit("CASE", fmt.Sprintf("L\t%s\t%s", c14CoqPhases(phases), c14CoqRes(res)))
+			}
 			if idx == 3 {
 				emit("SAMPLE", fmt.Sprintf("listener phases %v -> %d results", c14PhaseSummary(phases), len(res)))
 			}
@@ -947,7 +986,8 @@ func c14Listener(c *common, onlyCase int) {
 						}
 						continue
 					}
-					want := c14SeqBuild(seq)
+					sets, _ := c14Sets(ph.sets)
+					want := c14SeqBuild(seq, sets)
 					wn, gn := c14FileName(want), c14FileName(got.file)
 					bad := ""
 					if wn != gn {
